@@ -31,6 +31,7 @@ type Solver struct {
 	stack    []*Term // asserted path-condition prefix, one push level each
 	Queries  int
 	Unknowns int
+	FreshRetries int // unknowns of the incremental solver decided by a fresh process
 	Errors   int
 	Time     time.Duration
 	LastErr  string
@@ -189,8 +190,14 @@ func (s *Solver) Check(pc []*Term, extra []*Term, vars []*Term, model map[string
 	case resp == "unsat":
 		r = Unsat
 	case resp == "unknown" || strings.Contains(resp, "timeout"):
-		r = Unknown
+		// second chance in a fresh non-incremental process (see solver_fresh.go)
+		s.write("(pop 1)\n")
+		if fr := s.checkFresh(pc, extra, vars, model); fr != Unknown {
+			s.FreshRetries++
+			return fr
+		}
 		s.Unknowns++
+		return Unknown
 	default:
 		r = Unknown
 		s.Errors++
